@@ -22,10 +22,39 @@ import re
 from sa import facts
 from sa.cfg import cfg_of
 from sa.effects import Effects
-from sa.flow import Expander, flow_of
+from sa.flow import Expander as _EngineExpander, flow_of
 from sa.model import src, walk_no_nested, unmangle
 from sa.pat import match, same
 from . import taskrules as T
+
+
+class Expander(_EngineExpander):
+    """the engine's Expander with constant conditional expressions folded (`A if False else B` -> B): what is left of a merged
+    helper after the normaliser spliced it with a constant switch"""
+
+    def expand(self, expr, at=None, *a, **k):
+        out = T.fold_const(super().expand(expr, at, *a, **k))
+        at = at if at is not None else self.flow.node_of_expr(expr)
+        if at is None or out is None:
+            return out
+        # a local that stands for ONE object chosen by such a folded switch (`mirror = v.__x if False else v.__y`) and is then changed
+        # in place: the engine keeps "mutated" names opaque unless their definition is a plain attribute path - after folding it is
+        sub = {}
+        for n in ast.walk(out):
+            if isinstance(n, ast.Name) and isinstance(getattr(n, 'ctx', None), ast.Load) and n.id in self._mutated_names() and n.id not in sub:
+                d = self.flow.unique_def(n.id, at)
+                if d is not None and d.kind == 'assign' and d.value is not None and d.node is not None and d.node is not at and \
+                        isinstance(d.value, ast.IfExp):
+                    v = T.fold_const(super().expand(d.value, d.node))
+                    b = v
+                    while isinstance(b, ast.Attribute):
+                        b = b.value
+                    if isinstance(v, ast.Attribute) and isinstance(b, ast.Name):
+                        sub[n.id] = v
+        if sub:
+            from sa.flow import subst
+            out = subst(out, sub)
+        return out
 from .taskrules import guard_facts, relation_write_nodes, Roles, OWNERS, SETTERS
 
 
@@ -252,6 +281,9 @@ def guards(ctx, o, eff, name):
     if not writes:
         o.fail(f"{f.qual}: no relation write found")
         return
+    for cmp_, nm, gen in _exhausted_generator_tests(ctx, f):
+        o.refute(f, cmp_, cmp_, f"`{src(cmp_)[:50]}` tests membership in `{nm}`, a generator ({unmangle(gen.name)}) created once before the loop: "
+                                f"it is exhausted by the first test, every later element is compared with nothing and passes the guard")
     if name == 'children':
         writes = _without_symmetric_unlinks(f, writes)
         delegated = _attaches_only_through_parent_setter(ctx, f, eff)
@@ -273,6 +305,33 @@ def guards(ctx, o, eff, name):
         T.require(ctx, o, f, label, R, writes, eff, needs_elem)
     if name in ('predecessors', 'successors'):
         _constructor_path(ctx, o, eff, name)
+
+
+def _exhausted_generator_tests(ctx, f):
+    """[(compare node, local name, generator func)]: `x in g` inside a loop where g is a local bound OUTSIDE that loop to the result
+    of calling a generator function (one-shot iterator reused for every element)"""
+    cfg = cfg_of(f)
+    fl = flow_of(f)
+    targets = {}
+    for ci in ctx.cg.calls_in(f):
+        targets[id(ci.node)] = [t for t in ci.targets if t is not None]
+    out = []
+    for n in walk_no_nested(f.node):
+        if not (isinstance(n, ast.Compare) and len(n.ops) == 1 and isinstance(n.ops[0], (ast.In, ast.NotIn)) and
+                isinstance(n.comparators[0], ast.Name)):
+            continue
+        cn = cfg.node_containing(n)
+        if cn is None or not cfg.enclosing_fors(cn):
+            continue
+        d = fl.unique_def(n.comparators[0].id, cn)
+        if d is None or d.kind != 'assign' or not isinstance(d.value, ast.Call) or d.node is None:
+            continue
+        if any(fo in cfg.enclosing_fors(d.node) for fo in cfg.enclosing_fors(cn)) and cfg.enclosing_fors(d.node) == cfg.enclosing_fors(cn):
+            continue        # created anew in every round
+        gens = [t for t in targets.get(id(d.value), []) if any(isinstance(x, (ast.Yield, ast.YieldFrom)) for x in walk_no_nested(t.node))]
+        if gens and len(gens) == len(targets.get(id(d.value), [])):
+            out.append((n, n.comparators[0].id, gens[0]))
+    return out
 
 
 class _Capture:
@@ -1268,6 +1327,18 @@ def mirror_dep(ctx, o, name, mine, other):
 
     def absent(meth, what, key):
         """nothing matched: a violation only when the setter visibly does no such thing at all (closed world)"""
+        pub_other = unmangle(other).lstrip('_')
+        if meth == 'remove':
+            for c in facts.calls_named(f, 'remove'):
+                m_ = match(f"$v.{pub_other}.remove({s_})", c)
+                fo_ = _for_of(f, c)
+                if m_ and fo_ is not None and isinstance(m_['v'], ast.Name) and isinstance(fo_.target, ast.Name) and fo_.target.id == m_['v'].id:
+                    it_ = ex.expand(fo_.iter, cfg.node_of(fo_))
+                    if match(f"{s_}.{mine}", it_) or match(f"{s_}.{unmangle(mine).lstrip('_')}", it_):
+                        o.refute(f, c, c, f"the mirror entry is removed through the public list of the other side (`{src(c)[:50]}`): that runs "
+                                          f"the {pub_other} setter of v, which takes v out of self.{unmangle(mine)} - the very list being iterated "
+                                          f"- so every second old element is skipped and keeps its link to self")
+                        return
         wrong = [c for c in facts.calls_named(f, meth) if match(f"$v.{mine}.{meth}({s_})", ex.expand(c, cfg.node_containing(c)))]
         if wrong:
             o.refute(f, wrong[0], wrong[0], f"self is {what} the {unmangle(mine)} list of the elements instead of their {unmangle(other)} list: "
@@ -1895,9 +1966,10 @@ def _alias(f, e, at):
 def _published(ctx, o, f):
     """after the last change of self._list the setter callback is called with it on every normal path"""
     cfg = cfg_of(f)
-    calls = [c for c in facts.calls_named(f, '__setter') if match("self._ChildrenList__setter(self._list)", T.expand_call(ctx.prog, f, ctx.typer, c))]
+    pa = T.publish_attr(ctx.prog)
+    calls = [c for c in facts.calls_named(f, unmangle(pa)) if match(f"self.{pa}(self._list)", T.expand_call(ctx.prog, f, ctx.typer, c))]
     if not calls:
-        if facts.calls_named(f, '__setter'):
+        if facts.calls_named(f, unmangle(pa)):
             o.undecided(f, f.node, 'publish', f"{f.name} calls the publish callback with something the rule does not recognise as the shared list")
         else:
             o.refute(f, f.node, 'publish', f"{f.name} never hands the new list to the owner (self.__setter(self._list))")
